@@ -752,12 +752,18 @@ def _world(p: Partial, backend: str, ids: list[Id], actor: int, order: str, tag:
                          "relation": relation(ids[actor], ids[n]), "query": _coarse(errs[0])},
                         {"ids": shorts, "queries": errs[:6], "first": base[n][errs[0]], "world": tag}, rep)
     ops = sides[actor].alphabet(order)
+    own = _dump_tables(raw, sides[actor].names) if raw is not None else None
     for op, kind, fn in ops:
         try:
             fn()
         except Exception as e:  # noqa: BLE001
             excv(op, actor, e)
         p.count("transitions")
+        if raw is not None:  # the alphabet is not vacuous: how many operations changed the acting app's own rows
+            now_own = _dump_tables(raw, sides[actor].names)
+            if now_own != own:
+                p.count("operations_that_changed_the_acting_apps_rows")
+            own = now_own
         for n in observed:
             cur = sides[n].readout()
             p.count("traces_validated_against_impl")
@@ -776,7 +782,8 @@ def _world(p: Partial, backend: str, ids: list[Id], actor: int, order: str, tag:
             # go on from what is there now (read again: a lost claim was re-taken by the read-out)
             base[n] = sides[n].readout()
             base_c[n] = canon(base[n])
-    if not p.samples:
+    rel0 = relation(ids[actor], ids[observed[0]])
+    if not p.samples or (rel0.startswith("B=") and len(p.samples) < 2):
         p.sample({"backend": backend, "acting": shorts[actor], "observed": [shorts[n] for n in observed],
                   "relation": relation(ids[actor], ids[observed[0]]), "operations": [o[0] for o in ops],
                   "queries_per_readout": len(base[observed[0]])})
@@ -822,8 +829,16 @@ def run(ctx: Ctx) -> None:
     if items:
         rot = ctx.seed % len(items)
         items = items[rot:] + items[:rot]
+    samples: list[dict] = []
     for part in par.pmap(_unit, items):
+        samples.extend(part.samples)
+        part.samples = []
         ctx.merge(part)
+    picked: dict[tuple, dict] = {}
+    for smp in samples:  # one example per (backend, constructed or not), in item order
+        picked.setdefault((smp["backend"], smp["relation"].startswith("B=")), smp)
+    for smp in picked.values():
+        ctx.sample(smp, limit=6)
     n_pairs = sum(1 for m, o, _ in groups if m == "pair" and o == "writes-first")
     n_pf = sum(1 for m, o, _ in groups if o == "purges-first")
     n_triples = sum(1 for m, _, _ in groups if m == "triple")
